@@ -798,7 +798,9 @@ class CompartmentalSystem(Statement):
             return tuple()
 
     def __hash__(self):
-        return hash((self._t, self._g))
+        nodes = frozenset(self._g.nodes)
+        edges = frozenset((u, v, rate) for u, v, rate in self._g.edges.data('rate'))
+        return hash((self._t, nodes, edges))
 
     def to_dict(self) -> dict[str, Any]:
         comps = [comp for comp in self._g.nodes]
